@@ -154,11 +154,13 @@ class State:
         s.loads = list(loads or [])   # (addr, nbytes, what) performed on this path
         s.first_match = None          # facts recorded by the Windows::position summary
         s.no_match = None
+        s.scan_count = None
 
     def fork(s, pc):
         n = State(pc, s.mem, s.heap, s.loads)
         n.first_match = s.first_match
         n.no_match = s.no_match
+        n.scan_count = s.scan_count
         return n
 
 
@@ -177,6 +179,9 @@ LAYOUT = {
     'Multiboot2BasicHeader': {'size': 16, 'align': 8, 'fields': [(0, 'u32'), (4, 'HeaderTagISA'), (8, 'u32'), (12, 'u32')]},
     'ElfSectionsTag': {'size': 24, 'align': 8, 'fields': [(0, 'TagHeader'), (8, 'u32'), (12, 'u32'), (16, 'u32'), (20, '[u8]')],
                        'tail': (20, 'u8', 1)},
+    'MemoryArea': {'size': 24, 'align': 8, 'fields': [(0, 'u64'), (8, 'u64'), (16, 'u32'), (20, 'u32')]},
+    'MemoryMapTag': {'size': 16, 'align': 8, 'fields': [(0, 'TagHeader'), (8, 'u32'), (12, 'u32'), (16, '[MemoryArea]')], 'tail': (16, 'MemoryArea', 24)},
+    'SmbiosTag': {'size': 16, 'align': 8, 'fields': [(0, 'TagHeader'), (8, 'u8'), (9, 'u8'), (10, '[u8; 6]'), (16, '[u8]')], 'tail': (16, 'u8', 1)},
     'EndTag': {'size': 8, 'align': 8, 'fields': [(0, 'TagHeader')]},
     'EndHeaderTag': {'size': 8, 'align': 8, 'fields': [(0, 'HeaderTagHeader')]},
     'FramebufferTypeId': {'size': 1, 'enum': [0, 1, 2]},
@@ -923,6 +928,45 @@ class Engine:
         m = re.match(r'^<Windows<.*> as Iterator>::position::<\{closure@(.*?)\}>$', c)
         if m:
             return s.windows_position(args, sub, st, depth, m.group(1))
+        if re.match(r'^<Windows<.*> as Iterator>::take$', c):
+            w = args[0]
+            return R(Agg('TakeWindows', (w.fields[0], w.fields[1], args[1])))     # (slice, window size, at most k items)
+        m = re.match(r'^<(?:core::iter::)?Take<Windows<.*>> as Iterator>::position::<\{closure@(.*?)\}>$', c)
+        if m:
+            return s.windows_position(args, sub, st, depth, m.group(1), take=True)
+        m = re.match(r'^Option::<.*>::filter::<\{closure@(.*?)\}>$', c)
+        if m and isinstance(args[0], Enum):
+            o = args[0]
+            cf = s.find_closure(m.group(1))
+            if cf is None:
+                raise Unsupported('closure body not found: ' + m.group(1))
+            outs = []
+            def run_some(stS):
+                x = o.payload['Some'][0]
+                oid = next(s.oid)
+                stS.heap[oid] = x
+                for r_ in s.run(cf, [args[1], LRef(oid, ())], sub, stS, depth + 1):
+                    if r_[0] == 'panic':
+                        outs.append(r_)
+                        continue
+                    keep, st3 = r_[1], r_[2]
+                    for cond, val in ((keep == 1, mk_enum('Option', 'Some', [x])), (keep == 0, mk_enum('Option', 'None'))):
+                        pc = z3.And(st3.pc, cond)
+                        if s.feasible(pc):
+                            outs.append(('ret', val, st3.fork(pc)))
+            if isinstance(o.disc, str):
+                if o.disc == 'Some':
+                    run_some(st.fork(st.pc))
+                else:
+                    outs.append(('ret', o, st))
+            else:
+                pcS = z3.And(st.pc, s.discr(o) == 1)
+                if s.feasible(pcS):
+                    run_some(st.fork(pcS))
+                pcN = z3.And(st.pc, s.discr(o) == 0)
+                if s.feasible(pcN):
+                    outs.append(('ret', mk_enum('Option', 'None'), st.fork(pcN)))
+            return outs
         if re.match(r'^<&\[u8\] as TryInto<\[u8; (\d+)\]>>::try_into$', c):
             n = int(re.match(r'^<&\[u8\] as TryInto<\[u8; (\d+)\]>>::try_into$', c).group(1))
             sl = args[0]
@@ -1070,21 +1114,24 @@ class Engine:
     def store_local(s, st, ref, val):
         st.heap[ref.oid] = upd(st.heap[ref.oid], ref.path, val)
 
-    def windows_position(s, args, sub, st, depth, clos):
+    def windows_position(s, args, sub, st, depth, clos, take=False):
         """First-match specification of Iterator::position over Windows: result Some(i) with
         i the least index whose window satisfies the closure (the closure body is executed
         from its MIR on the symbolic window i; minimality is recorded as a path fact
         through an uninterpreted 'no earlier match' predicate handled by the driver)."""
         w = s.deref_local(st, args[0])
-        sl, n = w.fields
-        cf = None
-        for name, f in s.fns.items():
-            if '{closure#' in name and name.startswith(clos_owner(clos, s)) :
-                cf = f
+        if take:
+            sl, n, limit = w.fields
+        else:
+            sl, n = w.fields
+            limit = None
         cf = s.find_closure(clos)
         if cf is None:
             raise Unsupported('closure body not found: ' + clos)
         count = z3.If(z3.UGE(sl.meta, n), sl.meta - n + 1, BV(0, 64))   # number of windows
+        if limit is not None:
+            count = z3.If(z3.ULE(count, limit), count, limit)
+        mkw = (lambda a, m_, used: Agg('TakeWindows', (Fat(a, m_), n, limit - used))) if take else (lambda a, m_, used: Agg('Windows', (Fat(a, m_), n)))
         i = z3.BitVec('pos_i_%d' % next(s.oid), 64)
         out = []
         # Some(i): i < count, closure(window i) holds, and no j < i matches (driver-level fact)
@@ -1101,13 +1148,15 @@ class Engine:
                 if s.feasible(pc3):
                     st4 = st3.fork(pc3)
                     st4.heap = dict(st4.heap)
-                    s.store_local(st4, args[0], Agg('Windows', (Fat(sl.addr + i + 1, sl.meta - i - 1), n)))
+                    s.store_local(st4, args[0], mkw(sl.addr + i + 1, sl.meta - i - 1, i + 1))
                     st4.first_match = (sl, n, i, cf)
+                    st4.scan_count = count
                     out.append(('ret', mk_enum('Option', 'Some', [i]), st4))
         # None: no window matches (driver-level fact)
         st5 = st.fork(st.pc)
         st5.no_match = (sl, n, count, cf)
-        s.store_local(st5, args[0], Agg('Windows', (Fat(sl.addr + count, sl.meta - count), n)))
+        st5.scan_count = count
+        s.store_local(st5, args[0], mkw(sl.addr + count, sl.meta - count, count))
         out.append(('ret', mk_enum('Option', 'None'), st5))
         return out
 
